@@ -39,6 +39,14 @@ MkD2(ta, tb, tc, ida, v, buses, dup) ==
                                       fields |-> <<SigF("id", [i |-> 10])>>, signals |-> <<>>] >>
                     ELSE <<>>)]
 
+(* two multiplexed groups with DIFFERENT selectors in one message: c is selected by a, d by b *)
+MkD4(ta, tb, tc, td) ==
+    [structs |-> << [name |-> "Root", fields |-> <<FieldP("a", 0, ta), FieldP("b", 1, tb), FieldP("c", 2, tc), FieldP("d", 3, td)>>] >>,
+     enums |-> Enums,
+     impls |-> << [name |-> "Root", protocol |-> "can", type |-> "Root", fields |-> <<SigF("id", [i |-> 20])>>,
+                   signals |-> << [name |-> "c", fields |-> <<SigF("mux_count", [i |-> 2]), SigF("mux_signal", [s |-> "a"])>>],
+                                  [name |-> "d", fields |-> <<SigF("mux_count", [i |-> 3]), SigF("mux_signal", [s |-> "b"])>>] >>] >>]
+
 MkD(ta, tb, tc, ida, v, buses) == MkD2(ta, tb, tc, ida, v, buses, FALSE)
 
 BeLeavesOk(S) == \A impl \in Range(CanImpls(S)) :
@@ -51,4 +59,5 @@ DbcSchemas == { S \in { MkD(ta, tb, tc, ida, v, bu) : ta \in PoolA, tb \in PoolB
               \cup { S \in { MkD2(ta, tb, tc, 0, v, FALSE, TRUE) : ta \in {U(8), U(5)}, tb \in {U(16), I(16), U(8), U(5)},
                                                                    tc \in {U(5), I(16)}, v \in 0..2 } :
                        Generable(S) /\ BeLeavesOk(S) }
+              \cup { MkD4(ta, tb, tc, td) : ta \in {U(1), U(5)}, tb \in {U(2), U(8)}, tc \in {U(8), I(7), F32}, td \in {U(5), I(16)} }
 =============================================================================
